@@ -846,3 +846,18 @@ func findBlock(f *ir.Func, blockIdent ir.LocalIdent) (*ir.Block, error) {
 	}
 	return nil, errors.Errorf("unable to locate basic block %q of function %q", blockIdent.Ident(), f.Ident())
 }
+
+// checkCalleeSig validates the function signature written in (or implied by) a
+// call, invoke or callbr against the signature of the function called. The
+// printer derives the callee type of a direct call from the function, thus a
+// module in which the two disagree would not be printed as it was parsed.
+func checkCalleeSig(callee value.Value, sig *types.FuncType) error {
+	f, ok := callee.(*ir.Func)
+	if !ok {
+		return nil
+	}
+	if !sig.Equal(f.Sig) {
+		return errors.Errorf("type mismatch of callee %q; defined with type %q but expected %q", f.Ident(), f.Sig, sig)
+	}
+	return nil
+}
